@@ -90,6 +90,14 @@ CLAIMED = {
         note='Bound: the template corpus. Word operands that reach the label lookup (a dict keyed by address) are realised over a window of ~45 addresses. Outside: files whose instructions move while referring to unlabelled addresses '
              '(skool2asm keeps the literal address, skool2bin relocates it: documented, warned about), @bytes, @defb/@defs/@defw data directives, @bank, @remote, macro expansion of #PEEK itself, image macros, asm_mode 0 of skool2bin.',
         design='4 (C04)', technique=TECH + '; symbolic numerals through the real parser/writer/assembler; differential between the two tool chains'),
+    'C20': dict(
+        text='(a) The real rzxplay.process_block frame loop is run on a symbolic machine state for one frame holding one instruction, per opcode slot (quick: every fourth slot of each table; thorough: all 1792) and playback flags 0-3: the fetch counter it '
+             'reports (TraceLine {fc}) drops by exactly the M1 count of the instruction, the loop stops there, and the state after the frame boundary equals the Z80 reference step followed by the documented boundary rules '
+             '(T reset; interrupt accepted when enabled; HALT: PC advanced first; flag 1: LD A,I/R resets bit 2 of F; flag 2: EI before a frame of 1-2 fetches blocks it). '
+             '(b) write_rzx -> parse_rzx with symbolic fetch counters and port readings (1-8 frames, start index 0-2, Z80 and SZX snapshots): the frames parsed are the remaining frames written.',
+        note='Outside: frames of more than one instruction, whole recordings and desynchronisation detection, CSimulator_exec_frame, recordings with several input blocks, the 65535 repeated-frame marker, 128K paging and contended playback, rzxinfo. '
+             'Assumes memory[0] == 0xF3 (rzxplay passes 0 as previous PC to accept_interrupt) and that the instruction does not overwrite its own opcode bytes.',
+        design='4 (C20)', technique=TECH + '; reference Z80 model + documented frame-boundary rules as oracle'),
     'C18': dict(
         text='skool2asm only: the real SkoolParser + AsmWriter convert a corpus of 3 skool entries (long unbreakable words, multi-instruction comment groups, registers, paragraphs, end comments, operations wider than the instruction field) with a symbolic '
              'line width 40..200 (and comment-width-min 1..40; instruction-width 5..40 enumerated). Each path stands for all widths that wrap identically: the emitted words equal the source words in order, every instruction appears once, and z3 shows '
